@@ -550,3 +550,24 @@ def source_constants(path):
     except Exception:
         pass
     return sorted(out)
+
+
+def corr_streams(C, name, specs, imports):
+    """specs: list of dict(label, ty, cases=[(input, result)], term=lambda (inp,res)->coq term, chk=coq lambda,
+    nontrivial=lambda (inp,res)->bool).  Runs E1 and records disagreements / coverage."""
+    streams = [(s['label'], s['ty'], [s['term'](c) for c in s['cases']], s['chk']) for s in specs]
+    try:
+        res = run_cases(name, imports, streams)
+    except CoqCaseError as e:
+        C.broken.append(dict(kind='correspondence', stream=e.label, msg=str(e)[-800:]))
+        return
+    for s in specs:
+        idxs = res.get(s['label'], [])
+        for i in idxs[:5]:
+            C.disagreement(s['label'], dict(input=s['cases'][i][0]), impl=s['cases'][i][1])
+        nt = s.get('nontrivial', lambda c: True)
+        distinct = {repr(c[0]) for c in s['cases'] if nt(c)}
+        mid = s['cases'][len(s['cases']) // 3] if s['cases'] else None
+        C.stream('corr.' + s['label'], len(s['cases']), len(distinct),
+                 sample=dict(input=mid[0], impl=str(mid[1])) if mid else None)
+        C.cov['traces_validated_against_impl'] += len(s['cases'])
